@@ -53,8 +53,17 @@ fn main() {
             let sp = cv::api::Sp::from_json(v.get("sp").expect("sp")).expect("sp");
             let cfg = cv::api::Cfg::from_json(v.get("cfg").expect("cfg")).expect("cfg");
             let kind = v.get("kind").and_then(|k| k.as_str()).unwrap_or("doc").to_string();
-            let text = v.get("doc").and_then(|d| d.get("text")).and_then(|t| t.as_str()).expect("text").to_string();
+            let text = v
+                .get("doc")
+                .and_then(|d| d.get("text"))
+                .or(v.get("text"))
+                .and_then(|t| t.as_str())
+                .expect("text")
+                .to_string();
             let fails = |t: &str| -> bool {
+                if kind == "total" {
+                    return cv::api::ENTRIES.iter().any(|e| cv::api::call(*e, t, &sp, &cfg).is_err());
+                }
                 let Ok(rd) = cv::gen::admit(t, &sp, &cfg) else { return false };
                 let mut ctx = Ctx::new(&prop, Tier::Quick, 0, 0, 1);
                 let step = if cfg.targets.is_empty() { 0 } else { 1 };
